@@ -17,7 +17,7 @@
     returned an error (fake/gnmi/client.go stops at the first error, and so does
     the harness). *)
 From Gnmi Require Import Base.Prelude FakeQ.GoRand.
-From Coq Require Import Floats.
+From Coq Require Export Floats.
 Open Scope Z_scope.
 
 Definition two64 : Z := 18446744073709551616.
